@@ -19,6 +19,7 @@ import (
 	"os"
 	"os/exec"
 	"path/filepath"
+	"runtime"
 	"strconv"
 	"strings"
 	"sync"
@@ -190,6 +191,7 @@ const (
 	opPeerClose
 	opRelease
 	opRecv
+	opReleaseLowest // release the held handler with the lowest creation index
 )
 
 type sop struct {
@@ -224,6 +226,8 @@ func (o sop) String() string {
 		return fmt.Sprintf("Release(h%d)", o.H)
 	case opRecv:
 		return fmt.Sprintf("Recv(h%d)", o.H)
+	case opReleaseLowest:
+		return "ReleaseLowest"
 	}
 	return "?"
 }
@@ -315,8 +319,8 @@ func (h *hh) filter(hdr *net.Header) (bool, bool) {
 			h.enq++
 		}
 	}
-	if atomic.LoadInt32(&h.closerCalls) > 0 {
-		h.bad = append(h.bad, fmt.Sprintf("filter consulted for message id %d after the close callback", hdr.ID))
+	if r.M && atomic.LoadInt32(&h.closerCalls) > 0 {
+		h.bad = append(h.bad, fmt.Sprintf("message id %d selected for the handler after its close callback was invoked", hdr.ID))
 	}
 	h.mu.Unlock()
 	if h.fre {
@@ -366,6 +370,7 @@ type caseObs struct {
 	Fails      []string `json:"fails"`
 	Contract   bool     `json:"contract"` // no re-entering callback in the script
 	Nontrivial bool     `json:"nontrivial"`
+	NoModel    bool     `json:"nomodel"` // oracle-only case (deep exhaustive enumeration): not written for the model
 	Dist       []string `json:"dist"`
 }
 
@@ -385,7 +390,9 @@ type runner17 struct {
 
 // call runs f with a deadline and recovers a panic raised on its goroutine.
 // returns "", "panic: ..." or "hang".
-func call(f func()) string {
+func call(f func()) string { return callWithin(opTimeout, f) }
+
+func callWithin(d time.Duration, f func()) string {
 	done := make(chan string, 1)
 	go func() {
 		defer func() {
@@ -399,7 +406,7 @@ func call(f func()) string {
 	select {
 	case s := <-done:
 		return s
-	case <-time.After(opTimeout):
+	case <-time.After(d):
 		return "hang"
 	}
 }
@@ -419,6 +426,14 @@ func waitUntil(d time.Duration, cond func() bool) bool {
 			time.Sleep(time.Millisecond)
 		}
 	}
+}
+
+// call: operations of a script that breaks the callback contract are expected to hang; do not wait long
+func (r *runner17) call(f func()) string {
+	if !r.obs.Contract {
+		return callWithin(400*time.Millisecond, f)
+	}
+	return call(f)
 }
 
 func (r *runner17) fail(format string, a ...interface{}) {
@@ -553,7 +568,7 @@ loop:
 					shutdownWithTwo = true
 				}
 			}
-			res := call(func() { err = r.e.RemoveHandler(o.ID) })
+			res := r.call(func() { err = r.e.RemoveHandler(o.ID) })
 			emit(fmt.Sprintf("ORemove (%d)%%Z %s", o.ID, hx.Bool(err == nil)))
 			if ended(res, o.String()) {
 				break loop
@@ -598,7 +613,7 @@ loop:
 				}
 			} else {
 				var err error
-				res = call(func() { err = r.dispatch(&m) })
+				res = r.call(func() { err = r.dispatch(&m) })
 				d = dclass(err)
 			}
 			emit(fmt.Sprintf("OMsg %s %d%%N", o.M.term(), d))
@@ -654,7 +669,7 @@ loop:
 				h.mu.Lock()
 				h.held = false
 				for _, x := range o.Holds {
-					if x == h.idx && h.cl != 0 {
+					if (x == h.idx || x == -1) && h.cl != 0 {
 						h.held = true
 					}
 				}
@@ -685,7 +700,19 @@ loop:
 			if !afterShutdown(o, was) {
 				break loop
 			}
-		case opRelease:
+		case opRelease, opReleaseLowest:
+			if o.Kind == opReleaseLowest {
+				o.H = len(r.hs)
+				for _, x := range r.hs {
+					x.mu.Lock()
+					held := x.held
+					x.mu.Unlock()
+					if held {
+						o.H = x.idx
+						break
+					}
+				}
+			}
 			if o.H >= len(r.hs) {
 				continue
 			}
@@ -978,24 +1005,309 @@ func fixedScripts() []script {
 	return out
 }
 
+
+// ---------- exhaustive enumeration (thorough tier) ----------
+
+func exhAlphabet(n int) []sop {
+	keepAll := fdesc{Kind: 0, Tab: []bb{{true, true}, {true, true}, {true, true}}}
+	oneShot := fdesc{Kind: 0, Tab: []bb{{true, false}, {false, true}, {false, true}}}
+	all := []sop{
+		{Kind: opMake, F: keepAll, Cl: 1, Cap: 1},
+		{Kind: opMake, F: oneShot, Cl: 0, Cap: 1},
+		{Kind: opRemove, ID: 0},
+		{Kind: opRemove, ID: 1},
+		{Kind: opMsg, M: mspec{Typ: 1, Service: 1, Object: 1, Action: 0, ID: 0}},
+		{Kind: opClose, Holds: []int{-1}},
+		{Kind: opReleaseLowest},
+		{Kind: opRemove, ID: 2},
+		{Kind: opPeerClose},
+	}
+	return all[:n]
+}
+
+// exhCount: number of sequences of length 1..maxLen over n letters
+func exhCount(n, maxLen int) int {
+	t, p := 0, 1
+	for l := 1; l <= maxLen; l++ {
+		p *= n
+		t += p
+	}
+	return t
+}
+
+// exhScript: the k-th sequence (shorter ones first)
+func exhScript(n, k int, name string) script {
+	alpha := exhAlphabet(n)
+	l, p := 1, n
+	for k >= p {
+		k -= p
+		p *= n
+		l++
+	}
+	sc := script{Name: name}
+	ops := make([]sop, l)
+	for i := l - 1; i >= 0; i-- {
+		ops[i] = alpha[k%n]
+		k /= n
+	}
+	id := uint32(1)
+	for i := range ops {
+		if ops[i].Kind == opMsg {
+			ops[i].M.ID = id
+			id++
+		}
+	}
+	sc.Ops = ops
+	return sc
+}
+
+const (
+	exhModelLetters, exhModelLen = 9, 5 // compared with the model in Coq
+	exhDeepLetters, exhDeepLen   = 7, 7 // oracle-only
+)
+
 func scriptFor(seed uint64, tier string, k int) script {
 	fx := fixedScripts()
 	if k < len(fx) {
 		return fx[k]
 	}
+	if tier == "thorough" {
+		nr := nRandom17(tier)
+		e1 := exhCount(exhModelLetters, exhModelLen)
+		if j := k - len(fx) - nr; j >= 0 {
+			if j < e1 {
+				return exhScript(exhModelLetters, j, "exhaustive")
+			}
+			// deep part: only the sequences longer than those already covered above
+			return exhScript(exhDeepLetters, j-e1+exhCount(exhDeepLetters, exhModelLen), "exhaustive-deep")
+		}
+	}
 	return genScript(hx.NewRng(hx.NewRng(seed).U64()^(uint64(k)*0xD1342543DE82EF95)), tier)
 }
 
-func nCases17(tier string) int {
+func nRandom17(tier string) int {
 	if tier == "thorough" {
-		return 12000
+		return 20000
 	}
-	return 700
+	return 1500
+}
+
+func nCases17(tier string) int {
+	n := len(fixedScripts()) + nRandom17(tier)
+	if tier == "thorough" {
+		n += exhCount(exhModelLetters, exhModelLen) + exhCount(exhDeepLetters, exhDeepLen) - exhCount(exhDeepLetters, exhModelLen)
+	}
+	return n
+}
+
+// ---------- concurrent stress on a real NewEndPoint ----------
+
+// stressRound: workers register and remove handlers while traffic flows and the connection is shut
+// down (Close or read error) at a random moment.  Only per-handler facts that hold for every
+// interleaving are checked: close callback at most once (exactly once, followed by the close of the
+// queue, for handlers registered before the shutdown began), callback before close, nothing selected
+// after the callback, received = selected-while-room, RemoveHandler of a registered keep-always
+// handler succeeds and closes it before returning.
+func stressRound(seed uint64, round int) (fails []string, stats map[string]int) {
+	rng := hx.NewRng(hx.NewRng(seed).U64() ^ (uint64(round+1) * 0xA24BAED4963EE407))
+	stats = map[string]int{}
+	st := newHStream()
+	e := net.NewEndPoint(st)
+	var mu sync.Mutex
+	var all []*hh
+	var seq int64           // tickets
+	var shutdownStart int64 // ticket taken when the shutdown begins (0: not yet)
+	nWorkers := 2 + rng.Intn(4)
+	perWorker := 5 + rng.Intn(25)
+	nMsgs := 50 + rng.Intn(300)
+	peerClose := rng.Chance(0.4)
+	shutAfter := rng.Intn(nMsgs + 1)
+	var wg sync.WaitGroup
+	madeTickets := map[*hh]int64{}
+	fail := func(format string, a ...interface{}) {
+		mu.Lock()
+		fails = append(fails, fmt.Sprintf(format, a...))
+		mu.Unlock()
+	}
+	for w := 0; w < nWorkers; w++ {
+		wr := hx.NewRng(rng.U64())
+		wg.Add(1)
+		go func(w int) {
+			defer wg.Done()
+			for i := 0; i < perWorker; i++ {
+				f := genFilter(wr)
+				keepAlways := true
+				if f.Kind == 0 {
+					for _, x := range f.Tab {
+						if !x.K {
+							keepAlways = false
+						}
+					}
+				} else if !f.A.K || !f.B.K {
+					keepAlways = false
+				}
+				cl := wr.Pick(0, 1, 1, 1)
+				capq := wr.Pick(0, 1, 2, 5, 50)
+				h := &hh{f: f, cl: cl, capq: capq, q: make(chan *net.Message, capq), entered: make(chan struct{}), gate: make(chan struct{}), e: e}
+				var c net.Closer
+				if cl != 0 {
+					c = h.closer
+				}
+				h.slot = e.MakeHandler(h.filter, h.q, c)
+				t := atomic.AddInt64(&seq, 1)
+				mu.Lock()
+				h.idx = len(all)
+				all = append(all, h)
+				madeTickets[h] = t
+				mu.Unlock()
+				for k := wr.Intn(20); k > 0; k-- {
+					runtime.Gosched()
+				}
+				if keepAlways && wr.Chance(0.6) {
+					err := e.RemoveHandler(h.slot)
+					started := atomic.LoadInt64(&shutdownStart) != 0
+					if !started {
+						if err != nil {
+							fail("stress round %d: RemoveHandler(%d) of a registered handler whose filter always keeps it returned %v (no shutdown had begun)", round, h.slot, err)
+						} else {
+							h.mu.Lock()
+							closed := h.pull()
+							cc := int(atomic.LoadInt32(&h.closerCalls))
+							h.mu.Unlock()
+							want := 0
+							if cl != 0 {
+								want = 1
+							}
+							if !closed || cc != want {
+								fail("stress round %d: after RemoveHandler(%d) returned nil the handler has %d close callback calls (want %d), queue closed = %v", round, h.slot, cc, want, closed)
+							}
+						}
+					}
+				}
+			}
+		}(w)
+	}
+	wg.Add(1)
+	go func() {
+		defer wg.Done()
+		fr := hx.NewRng(rng.U64())
+		for i := 0; i < nMsgs; i++ {
+			if i == shutAfter {
+				atomic.CompareAndSwapInt64(&shutdownStart, 0, atomic.AddInt64(&seq, 1))
+				if peerClose {
+					st.fail(io.EOF)
+					return
+				}
+				e.Close()
+				if fr.Bool() {
+					e.Close()
+				}
+			}
+			m := mspec{Typ: uint32(fr.Pick(1, 1, 2, 5)), Service: 1, Object: 1, Action: uint32(fr.Intn(4)), ID: uint32(i + 1), Payload: fr.Bytes(fr.Pick(0, 0, 3))}
+			var wb writerBuf
+			msg := m.message()
+			msg.Write(&wb)
+			st.feed(wb.b)
+			if fr.Chance(0.3) {
+				runtime.Gosched()
+			}
+		}
+		if atomic.CompareAndSwapInt64(&shutdownStart, 0, atomic.AddInt64(&seq, 1)) {
+			if peerClose {
+				st.fail(io.EOF)
+			} else {
+				e.Close()
+			}
+		}
+	}()
+	donec := make(chan struct{})
+	go func() { wg.Wait(); close(donec) }()
+	select {
+	case <-donec:
+	case <-time.After(20 * time.Second):
+		return []string{fmt.Sprintf("stress round %d: workers did not finish within 20 s (deadlock)", round)}, stats
+	}
+	start := atomic.LoadInt64(&shutdownStart)
+	mu.Lock()
+	hs := append([]*hh(nil), all...)
+	mu.Unlock()
+	// every handler registered before the shutdown began must end up closed exactly once
+	deadline := time.Now().Add(5 * time.Second)
+	for _, h := range hs {
+		before := madeTickets[h] < start
+		want := 0
+		if h.cl != 0 {
+			want = 1
+		}
+		if before {
+			stats["registered-before-shutdown"]++
+			for {
+				h.mu.Lock()
+				closed := h.pull()
+				cc := int(atomic.LoadInt32(&h.closerCalls))
+				h.mu.Unlock()
+				if closed && cc == want {
+					break
+				}
+				if time.Now().After(deadline) {
+					fail("stress round %d: handler registered before the shutdown began: %d close callback calls (want %d), queue closed = %v", round, cc, want, closed)
+					break
+				}
+				time.Sleep(200 * time.Microsecond)
+			}
+		} else {
+			stats["registered-during-or-after-shutdown"]++
+		}
+	}
+	time.Sleep(2 * time.Millisecond)
+	for _, h := range hs {
+		h.mu.Lock()
+		closed := h.pull()
+		cc := int(atomic.LoadInt32(&h.closerCalls))
+		if cc > 1 {
+			fail("stress round %d: close callback invoked %d times", round, cc)
+		}
+		if closed && h.cl != 0 && cc != 1 {
+			fail("stress round %d: queue closed with %d close callback calls", round, cc)
+		}
+		if closed && !equalU32(h.stash, h.expect) {
+			fail("stress round %d: handler (filter %s, cap %d) received ids %v; selected while its queue had room: %v", round, h.f, h.capq, h.stash, h.expect)
+		}
+		for _, b := range h.bad {
+			fail("stress round %d: %s", round, b)
+		}
+		if closed {
+			stats["closed"]++
+		}
+		stats["handlers"]++
+		stats["delivered"] += len(h.stash)
+		h.mu.Unlock()
+	}
+	if !peerClose {
+		st.fail(errors.New("harness: end of round"))
+	}
+	return fails, stats
 }
 
 // ---------- child ----------
 
 func childC17(res *hx.Result, rng *hx.Rng, tier string, outdir string) {
+	if n, _ := strconv.Atoi(os.Getenv("QV_C17_STRESS")); n > 0 {
+		f, err := os.OpenFile(filepath.Join(outdir, "C17_stress.jsonl"), os.O_APPEND|os.O_CREATE|os.O_WRONLY, 0o644)
+		if err != nil {
+			panic(err)
+		}
+		defer f.Close()
+		first, _ := strconv.Atoi(os.Getenv("QV_C17_STRESS_FROM"))
+		for k := first; k < n; k++ {
+			b, _ := json.Marshal(map[string]interface{}{"begin": k})
+			f.Write(append(b, '\n'))
+			fails, stats := stressRound(res.Seed, k)
+			b, _ = json.Marshal(map[string]interface{}{"round": k, "fails": fails, "stats": stats})
+			f.Write(append(b, '\n'))
+		}
+		return
+	}
 	from, _ := strconv.Atoi(os.Getenv("QV_C17_FROM"))
 	to, _ := strconv.Atoi(os.Getenv("QV_C17_TO"))
 	f, err := os.OpenFile(filepath.Join(outdir, "C17_obs.jsonl"), os.O_APPEND|os.O_CREATE|os.O_WRONLY, 0o644)
@@ -1008,6 +1320,10 @@ func childC17(res *hx.Result, rng *hx.Rng, tier string, outdir string) {
 		b, _ := json.Marshal(map[string]interface{}{"begin": k, "desc": sc.String()})
 		f.Write(append(b, '\n'))
 		obs := runScript(k, sc)
+		if sc.Name == "exhaustive-deep" {
+			obs.NoModel = true
+			obs.Ops, obs.Hs, obs.Sent = nil, nil, nil
+		}
 		b, _ = json.Marshal(obs)
 		f.Write(append(b, '\n'))
 	}
@@ -1113,8 +1429,101 @@ func runC17(res *hx.Result, rng *hx.Rng, tier string, outdir string) {
 		if k >= len(fixedScripts()) {
 			res.Sample(o.Desc)
 		}
+		if o.NoModel {
+			continue
+		}
 		cf.Add("cases", fmt.Sprintf("{| c_ops := %s; c_end := %d%%N; c_hs := %s; c_sent := %s; c_sclose := %d%%N |}",
 			hx.List(o.Ops), o.End, hx.List(o.Hs), hx.List(o.Sent), o.SClose), o.Desc)
 	}
 	cf.Flush()
+	if tier == "thorough" && len(done) == total {
+		res.Exhaustive = true
+		res.Notes = append(res.Notes, fmt.Sprintf("exhaustive: all %d operation sequences of length <= %d over a %d-letter alphabet compared with the model; all %d sequences of length %d..%d over %d letters run against the property oracles",
+			exhCount(exhModelLetters, exhModelLen), exhModelLen, exhModelLetters,
+			exhCount(exhDeepLetters, exhDeepLen)-exhCount(exhDeepLetters, exhModelLen), exhModelLen+1, exhDeepLen, exhDeepLetters))
+	}
+	runStress17(res, tier, outdir)
+}
+
+func runStress17(res *hx.Result, tier string, outdir string) {
+	rounds := 60
+	if tier == "thorough" {
+		rounds = 1500
+	}
+	path := filepath.Join(outdir, "C17_stress.jsonl")
+	os.Remove(path)
+	next, crashes := 0, 0
+	agg := map[string]int{}
+	doneRounds := 0
+	for next < rounds && crashes < 5 {
+		cmd := exec.Command(os.Args[0], "--seed", fmt.Sprint(res.Seed), "--tier", tier, "--out", outdir, "C17.child")
+		cmd.Env = append(os.Environ(), fmt.Sprintf("QV_C17_STRESS=%d", rounds), fmt.Sprintf("QV_C17_STRESS_FROM=%d", next))
+		var stderr strings.Builder
+		cmd.Stderr = &stderr
+		cmd.Stdout = &stderr
+		if err := cmd.Start(); err != nil {
+			res.Notes = append(res.Notes, "cannot start stress child: "+err.Error())
+			return
+		}
+		waitc := make(chan error, 1)
+		go func() { waitc <- cmd.Wait() }()
+		var werr error
+		select {
+		case werr = <-waitc:
+		case <-time.After(30 * time.Minute):
+			cmd.Process.Kill()
+			werr = fmt.Errorf("stress child exceeded 30 min")
+			<-waitc
+		}
+		begun := -1
+		seen := map[int]bool{}
+		if fh, err := os.Open(path); err == nil {
+			sc := bufio.NewScanner(fh)
+			sc.Buffer(make([]byte, 1<<20), 1<<26)
+			for sc.Scan() {
+				var rec struct {
+					Begin *int           `json:"begin"`
+					Round *int           `json:"round"`
+					Fails []string       `json:"fails"`
+					Stats map[string]int `json:"stats"`
+				}
+				if json.Unmarshal(sc.Bytes(), &rec) != nil {
+					continue
+				}
+				if rec.Begin != nil {
+					begun = *rec.Begin
+				}
+				if rec.Round != nil && *rec.Round >= next && !seen[*rec.Round] {
+					seen[*rec.Round] = true
+					doneRounds++
+					for _, f := range rec.Fails {
+						res.Fail("stress", f)
+					}
+					for k, v := range rec.Stats {
+						agg[k] += v
+					}
+				}
+			}
+			fh.Close()
+		}
+		if werr == nil {
+			break
+		}
+		crashes++
+		tail := stderr.String()
+		if i := strings.Index(tail, "panic:"); i >= 0 {
+			tail = tail[i:]
+		} else if i := strings.Index(tail, "fatal error:"); i >= 0 {
+			tail = tail[i:]
+		}
+		if len(tail) > 600 {
+			tail = tail[:600]
+		}
+		res.Fail("process-died", fmt.Sprintf("concurrent stress round %d (seed %d: workers registering/removing handlers, traffic, shutdown) killed the process (%v): %s", begun, res.Seed, werr, tail))
+		next = begun + 1
+	}
+	res.Notes = append(res.Notes, fmt.Sprintf("concurrent stress on net.NewEndPoint: %d rounds, %d handlers (%d registered before the shutdown began, %d closed), %d messages delivered",
+		doneRounds, agg["handlers"], agg["registered-before-shutdown"], agg["closed"], agg["delivered"]))
+	res.Distribution["stress:rounds"] = doneRounds
+	res.Distribution["stress:handlers"] = agg["handlers"]
 }
